@@ -30,4 +30,46 @@ theorem adjacent_swaps_generate (n : ℕ) :
     Submonoid.closure (Set.range fun i : Fin n => Equiv.swap i.castSucc i.succ) = ⊤ :=
   Equiv.Perm.mclosure_swap_castSucc_succ n
 
+/-- a sequence that strictly increases on every step of [a, b) is strictly larger at b than at a -/
+theorem chain_up (ℓ : ℕ → ℝ) (a : ℕ) : ∀ b, a < b → (∀ j, a ≤ j → j < b → ℓ j < ℓ (j+1)) → ℓ a < ℓ b := by
+  intro b
+  induction b with
+  | zero => intro h; omega
+  | succ n ih =>
+    intro hab hstep
+    rcases Nat.lt_or_ge a n with h | h
+    · have h1 := ih h (fun j hj hjn => hstep j hj (Nat.lt_succ_of_lt hjn))
+      have h2 := hstep n (Nat.le_of_lt h) (Nat.lt_succ_self n)
+      linarith
+    · have : a = n := by omega
+      subst this
+      exact hstep a (le_refl a) (Nat.lt_succ_self a)
+
+theorem chain_down (ℓ : ℕ → ℝ) (a : ℕ) : ∀ b, a < b → (∀ j, a ≤ j → j < b → ℓ (j+1) < ℓ j) → ℓ b < ℓ a := by
+  intro b hab h
+  have := chain_up (fun j => - ℓ j) a b hab (fun j hj hjb => by simpa using neg_lt_neg (h j hj hjb))
+  simpa using neg_lt_neg this
+
+/-- L9: Douglas soft binning. With sorted cut points, logits whose consecutive differences are (x - c_j)/T (T > 0), and r cut
+points below x (x on no cut point), bin r has the strictly largest logit -- for every temperature, hence the hard assignment
+reached as T -> 0 is "number of cut points below x", constant on the cells of the grid. -/
+theorem bin_argmax (m r : ℕ) (hr : r ≤ m) (c ℓ : ℕ → ℝ) (x T : ℝ) (hT : 0 < T)
+    (hstep : ∀ j < m, ℓ (j+1) - ℓ j = (x - c j) / T)
+    (hbelow : ∀ j < r, c j < x) (habove : ∀ j, r ≤ j → j < m → x < c j) :
+    ∀ j ≤ m, j ≠ r → ℓ j < ℓ r := by
+  intro j hjm hjr
+  rcases Nat.lt_or_gt_of_ne hjr with h | h
+  · apply chain_up ℓ j r h
+    intro i hji hir
+    have hi : i < m := lt_of_lt_of_le hir hr
+    have e := hstep i hi
+    have : 0 < (x - c i) / T := div_pos (by linarith [hbelow i hir]) hT
+    linarith
+  · apply chain_down ℓ r j h
+    intro i hri hij
+    have hi : i < m := lt_of_lt_of_le hij hjm
+    have e := hstep i hi
+    have : (x - c i) / T < 0 := div_neg_of_neg_of_pos (by linarith [habove i hri hi]) hT
+    linarith
+
 end GemLemmas
